@@ -362,5 +362,5 @@ MANIFEST = {
     "level": "Static structural decision that the root-of-trust value is built by the documented construction from all keys in order and nothing else, on every tool path, and that "
              "certificate block headers/flags/ISK prefix agree between writer, reader and signer. Hash values are not computed.",
     "note": "Trusted: get_hash (C09), key classes (C08). rot_type cert_block_x has no Rot class (reported; outside the property's list).",
-    "technique": "static analysis: construction extraction and sibling cross-check, abstract evaluation of table rules, bit provenance, struct symmetry, registry/data lint, parameter-flow, symbolic-path decision tables (key hash, ISK signed prefix), finite-model evaluation of table export, export/parse round trip of the certificate block headers interpreted on model objects (E19)",
+    "technique": "static analysis: construction extraction and sibling cross-check, abstract evaluation of table rules, bit provenance, struct symmetry, registry/data lint, parameter-flow, symbolic-path decision tables (key hash, ISK signed prefix), finite-model evaluation of table export, export/parse round trip of the certificate block headers interpreted on model objects (E19), attribute-protocol target-vs-source clause",
 }
